@@ -46,15 +46,16 @@ def classify(real, layout):
     if real == layout.get("input"):
         return "input"
     out = layout.get("output_dir")
+    log = layout.get("log_dir")
     if out is not None and real == out:
         return "output_dir"
-    if under(out):
-        return "output_tmp" if real.endswith(".tmp") else "output"
-    log = layout.get("log_dir")
+    # ./log first: with "-o ." the log directory lies inside the output directory and stays the log directory
     if log is not None and real == log:
         return "log_dir"
     if under(log):
         return "log"
+    if under(out):
+        return "output_tmp" if real.endswith(".tmp") else "output"
     if out is not None and out.startswith(real.rstrip("/") + "/") and under(layout.get("world")):
         return "output_ancestor"
     if under(layout.get("template_dir")):
